@@ -2,5 +2,5 @@ CONSTANTS
   SMAX = 12
 INIT Init
 NEXT Next
-INVARIANTS StrideInv BlockInv
+INVARIANTS StrideInv ViewInv BlockInv
 CHECK_DEADLOCK FALSE
